@@ -182,6 +182,14 @@ def _fam_symbolic(E, n, nchildren, nentries, nested=False):
             ('%r -> %r', failure, flat))
     if any(isinstance(c, Concurrent) for c in children):
         E.reach('nested')
+        # the very same nested failure object occurring twice (two activities awaiting one failed
+        # task re-raise the identical object) and a leaf occurring twice: all occurrences stay
+        twice = Concurrent(*(children + children))
+        flat2 = twice.flattened()
+        E.prove(len(flat2.children) == 2 * len(leaves) and
+                all(a is b for a, b in zip(flat2.children, leaves + leaves)),
+                'flattened-preserves-leaves-in-order',
+                ('re-used children: %r -> %r', twice, flat2))
 
 
 # --- except clause on a real hierarchy
